@@ -20,13 +20,16 @@ CRASH_EXIT = 77      # exit status of a lifetime killed by its own crash plan
 
 
 class Seam:
-    def __init__(self, root, chunk=65536, crash=None, enospc_after=None, gate=None, oserr=None):
+    def __init__(self, root, chunk=65536, crash=None, enospc_after=None, gate=None, oserr=None,
+                 readonly=None):
         self.root = os.path.realpath(root)
         self.chunk = max(1, int(chunk))
         self.crash = crash or None      # {"op": k, "when": "before"|"after"} | {"wbytes": n}
         self.enospc_after = enospc_after
         self.gate = gate                # callable(desc) -> None, may block
         self.oserr = oserr or None      # {"op": k, "errno": "EIO"}: operation k fails
+        self.paused = False
+        self.readonly = readonly        # "EROFS" | "EACCES" | "EPERM": every change below root fails
         self.nops = 0
         self.wbytes = 0
         self.log = []                   # (k, name, relpath, detail)
@@ -36,6 +39,8 @@ class Seam:
 
     # -- bookkeeping ----------------------------------------------------------
     def _mine(self, path):
+        if self.paused:
+            return False            # the simulator's own file operations (mid-life faults)
         try:
             if isinstance(path, int):
                 return False
@@ -65,6 +70,10 @@ class Seam:
         c = self.crash
         if c and c.get("op") == k and c.get("when", "before") == "before":
             self._die()
+        if self.readonly and self._mutates(name, path, detail):
+            en = getattr(errno, self.readonly)
+            self.log[-1] = (k, name, rel, "readonly-" + self.readonly)
+            raise OSError(en, os.strerror(en), os.path.join(self.root, rel))
         f = self.oserr
         if f and f.get("op") == k:
             en = getattr(errno, f.get("errno", "EIO"))
@@ -73,6 +82,23 @@ class Seam:
             self.log[-1] = (k, name, rel, "injected-" + f.get("errno", "EIO"))
             raise ex
         return k
+
+    _MUT = {"write", "os.write", "unlink", "remove", "rename", "replace", "utime", "chmod", "truncate",
+            "rmdir", "link", "symlink", "ftruncate", "chown"}
+
+    def _mutates(self, name, path, detail):
+        """Would this operation change a read-only directory tree?  (mkdir of an
+        existing path fails with EEXIST first, as on a real read-only mount.)"""
+        if name in self._MUT:
+            return True
+        if name == "open":
+            return isinstance(detail, str) and any(ch in detail for ch in "wax+")
+        if name == "os.open":
+            return isinstance(detail, int) and bool(
+                detail & (os.O_WRONLY | os.O_RDWR | os.O_CREAT | os.O_TRUNC | os.O_APPEND))
+        if name in ("mkdir", "makedirs"):
+            return not os.path.lexists(os.fspath(path))
+        return False
 
     def _after(self, k):
         c = self.crash
